@@ -118,6 +118,17 @@ def run(index, tier="quick", seed=0) -> Result:
                 res.ok("FF-4", label)
             else:
                 res.bad("FF-4", label, where, f"{label}: no positional phase exp(-i q.centroid): the amplitude ignores where the sphere is")
+            # FF-4b: the phase multiplies the whole amplitude - also the entries of the q -> 0 branch (|q| small does not make
+            # q . centroid small for a sphere far from the origin)
+            whole = [e for e in r["events"] if e.type == "augassign" and e.f.get("op") == "Mult" and e.f.get("rhs") is not None
+                     and ("self", "_centroid") in e.rhs.deps and e.func is fn]
+            stores = [e for e in r["events"] if e.type == "local-store" and e.func is fn and e.f.get("value") is not None]
+            unphased = [e for e in stores if ("self", "_centroid") not in e.value.deps and not e.value.is_number_const()]
+            if ok and not whole and unphased:
+                res.bad("FF-4", label + ":phase-on-part", unphased[0].where(), f"{label}: the branch stored by `{unphased[0].src()[:50]}` never receives the positional "
+                        "phase exp(-i q.centroid): for a sphere far from the origin q.centroid is not small where |q| is, so F loses its phase there")
+            elif ok:
+                res.ok("FF-4", label + ":whole-array", nontrivial=bool(whole))
         elif cname == "Polyhedron":
             ok = any(("self", "_equations") in e.arg.deps and "q" in e.arg.pdeps for e in trig)
             sign_ok = False
